@@ -65,6 +65,14 @@ func raceLine(msg string) string {
 		out = "race: shutdown-beside-drawing"
 	} else if resumeBesideQuery(msg) {
 		out = "race: resume-beside-query"
+	} else if bl := raceStacks(msg); len(bl) == 2 {
+		// a third family: the image encoder's goroutine (started by Sixel.Resize) beside a frame; which of the
+		// two accesses the report names first depends on the schedule
+		enc := func(b string) bool { return strings.Contains(b, "vaxis.(*Sixel).Resize.func1()") }
+		frame := func(b string) bool { return !enc(b) && strings.Contains(b, "vaxis.(*Vaxis).Render()") }
+		if enc(bl[0]) && frame(bl[1]) || enc(bl[1]) && frame(bl[0]) {
+			out = "race: sixel-encoder-beside-render"
+		}
 	}
 	b := []byte(out)
 	for i := range b {
